@@ -206,6 +206,7 @@ func runC17(c *Ctx) {
 	c17zigzag(c, m)
 	c17fixed(c, m)
 	c17prefixes(c, m)
+	c17compactLen(c, m)
 }
 
 func c17table(c *Ctx, m *Module) {
@@ -868,3 +869,97 @@ func c17prefixes(c *Ctx, m *Module) {
 }
 
 func nosp(s string) string { return strings.ReplaceAll(s, " ", "") }
+
+// compact-length-not-narrowed (seed C17-G applied to both copies): in every
+// Reader method whose Span length comes from the compact (uvarint) prefix, the
+// conversions between Uvarint() and the local that is tested `< 0` (null) and
+// handed to Span never pass through an explicitly sized signed type of at
+// most 32 bits: such a narrowing turns a prefix >= 2^31 (a claim of gigabytes)
+// into a negative length, which reads as "null" instead of marking the reader
+// bad. Conversions to `int` are accepted as written (on 32-bit targets `int`
+// has the same width; that platform case is not decided here).
+func c17compactLen(c *Ctx, m *Module) {
+	rule := "compact-length-not-narrowed"
+	n := 0
+	for _, f := range m.FuncsIn("kbin") {
+		if f.Decl.Recv == nil || recvTypeName(f.Decl.Recv.List[0].Type) != "Reader" || f.Decl.Body == nil {
+			continue
+		}
+		info := f.Info()
+		// locals handed to Span
+		spanArgs := map[types.Object]bool{}
+		for _, x := range findNodes(f.Decl.Body, true, func(x ast.Node) bool { _, ok := x.(*ast.CallExpr); return ok }) {
+			ce := x.(*ast.CallExpr)
+			if se, ok := ce.Fun.(*ast.SelectorExpr); ok && se.Sel.Name == "Span" && len(ce.Args) == 1 {
+				a := ce.Args[0]
+				for {
+					a = unparen(a)
+					if cv, ok := a.(*ast.CallExpr); ok && len(cv.Args) == 1 && info.Types[cv.Fun].IsType() {
+						a = cv.Args[0]
+						continue
+					}
+					break
+				}
+				if id, ok := a.(*ast.Ident); ok && info.Uses[id] != nil {
+					spanArgs[info.Uses[id]] = true
+				}
+			}
+		}
+		for _, x := range findNodes(f.Decl.Body, true, func(x ast.Node) bool { _, ok := x.(*ast.AssignStmt); return ok }) {
+			as := x.(*ast.AssignStmt)
+			if len(as.Lhs) != 1 || len(as.Rhs) != 1 {
+				continue
+			}
+			id, ok := as.Lhs[0].(*ast.Ident)
+			if !ok {
+				continue
+			}
+			obj := info.Defs[id]
+			if obj == nil {
+				obj = info.Uses[id]
+			}
+			if obj == nil || !spanArgs[obj] {
+				continue
+			}
+			// does the right-hand side read the uvarint prefix?
+			var narrow []string
+			hasUv := false
+			ast.Inspect(as.Rhs[0], func(y ast.Node) bool {
+				ce, ok := y.(*ast.CallExpr)
+				if !ok {
+					return true
+				}
+				if se, ok := ce.Fun.(*ast.SelectorExpr); ok && se.Sel.Name == "Uvarint" && len(ce.Args) == 0 {
+					hasUv = true
+				}
+				if len(ce.Args) == 1 && info.Types[ce.Fun].IsType() {
+					if bt, ok := info.Types[ce.Fun].Type.Underlying().(*types.Basic); ok {
+						switch bt.Kind() {
+						case types.Int8, types.Int16, types.Int32:
+							uv := false
+							ast.Inspect(ce.Args[0], func(z ast.Node) bool {
+								if c2, ok := z.(*ast.CallExpr); ok {
+									if s2, ok := c2.Fun.(*ast.SelectorExpr); ok && s2.Sel.Name == "Uvarint" {
+										uv = true
+									}
+								}
+								return true
+							})
+							if uv {
+								narrow = append(narrow, exprStr(ce.Fun))
+							}
+						}
+					}
+				}
+				return true
+			})
+			if !hasUv {
+				continue
+			}
+			n++
+			c.Check(len(narrow) == 0, rule, f.Key+": "+id.Name, as.Pos(), m, "uvarint prefix reaches the null test and Span without a signed narrowing",
+				"the compact length `"+nodeStr(as)+"` narrows the unsigned prefix through "+strings.Join(narrow, ", ")+": a prefix >= 2^31 becomes negative and is read as a null value instead of being rejected as short input")
+		}
+	}
+	c.Floor(rule, n, 6)
+}
